@@ -12,6 +12,7 @@ hypotheses written in each statement; the covariance theorem is over `ℝ` with 
 `Matrix.PosSemidef` / `PosDef`.
 -/
 import SharkVerif.Model.CMA
+import SharkVerif.Model.ES
 import Mathlib.Tactic.Linarith
 import Mathlib.Tactic.Positivity
 import Mathlib.Tactic.FieldSimp
@@ -21,7 +22,7 @@ import Mathlib.Analysis.SpecialFunctions.Exp
 import Mathlib.Algebra.Order.Star.Real
 import SharkVerif.Lemmas.ES
 namespace SharkVerif.C11
-open SharkVerif.Opt SharkVerif.Opt.CMA
+open SharkVerif.Opt SharkVerif.Opt.CMA SharkVerif.Opt.ES
 
 /-! ## rank invariance -/
 
@@ -465,31 +466,6 @@ theorem ecma_consts_admissible (F : Fns Rat) (hpow : ∀ x y : Rat, 0 ≤ F.pow 
     refine ⟨by positivity, ?_⟩
     rw [div_le_iff₀ (by positivity)]; nlinarith
 
-/-- the active ("negative") covariance update of `CMAChromosome::updateAsParent` is admissible for every step:
-with the rate chosen by the C++ (`rate = c_unlearn`, shortened to `1/(2‖z‖²−1)` when `‖z‖² > 1` and
-`1 < c_unlearn (2‖z‖²−1)`), the factor `(1+rate) − rate‖z‖²` of `I` along `z` in
-`L((1+rate) I − rate z zᵀ)Lᵀ` is positive, i.e. the updated matrix stays positive definite -/
-def activeRate (cUnlearn zz : Rat) : Rat :=
-  if 1 < zz ∧ 1 < cUnlearn * (2 * zz - 1) then 1 / (2 * zz - 1) else cUnlearn
-
-theorem active_update_admissible (cUnlearn zz : Rat) (hc : 0 < cUnlearn) (hz : 0 ≤ zz) :
-    0 < activeRate cUnlearn zz ∧ 0 < (1 + activeRate cUnlearn zz) - activeRate cUnlearn zz * zz := by
-  unfold activeRate
-  split
-  · next h =>
-    have hd : 0 < 2 * zz - 1 := by linarith [h.1]
-    refine ⟨by positivity, ?_⟩
-    have : 1 + 1 / (2 * zz - 1) - 1 / (2 * zz - 1) * zz = zz / (2 * zz - 1) := by field_simp; ring
-    rw [this]; exact div_pos (by linarith [h.1]) hd
-  · next h =>
-    refine ⟨hc, ?_⟩
-    by_cases h1 : 1 < zz
-    · have : cUnlearn * (2 * zz - 1) ≤ 1 := by
-        by_contra hh; exact h ⟨h1, not_le.mp hh⟩
-      nlinarith
-    · have : zz ≤ 1 := not_lt.mp h1
-      nlinarith
-
 /-! ## covariance update -/
 
 open Matrix in
@@ -539,6 +515,324 @@ theorem elitist_value_is_f (fit : Vec Rat → Rat) (s : Elitist Rat) (h : s.best
   unfold elitistStep
   split
   · rfl
+  · exact h
+
+/-! ## every comparison-based strategy (CMSA, VD-CMA, cross-entropy method, … : `Model/ES.lean`, `Strategy`) -/
+section generic
+variable {α : Type} [Scalar α] {σ ι : Type}
+
+theorem gselect_relabel (φ : α → α) (hφ : OrderPreserving φ) (off : List (ι × α)) (mu : Nat) :
+    gselect (off.map fun p => (p.1, φ p.2)) mu = (gselect off mu).map fun p => (p.1, φ p.2) := by
+  unfold gselect
+  rw [List.map_take]
+  congr 1
+  symm
+  apply List.map_mergeSort
+  intro a _ b _
+  exact hφ a.2 b.2
+
+def GRelated (φ : α → α) (s s' : GState σ α) : Prop :=
+  s'.state = s.state ∧ s'.gen = s.gen ∧ s'.bestPoint = s.bestPoint ∧ s'.bestValue = φ s.bestValue
+
+theorem gstep_related (S : Strategy σ ι α) (fit : Vec α → α) (φ : α → α) (hφ : OrderPreserving φ)
+    (s s' : GState σ α) (h : GRelated φ s s') : GRelated φ (gstep S fit s) (gstep S (φ ∘ fit) s') := by
+  obtain ⟨h1, h2, h3, h4⟩ := h
+  unfold gstep
+  rw [h1, h2]
+  have e : ((S.sample s.state s.gen).map fun i => (i, (φ ∘ fit) (S.point i)))
+      = ((S.sample s.state s.gen).map fun i => (i, fit (S.point i))).map fun p => (p.1, φ p.2) := by
+    simp [List.map_map, Function.comp_def]
+  rw [e]
+  dsimp only
+  rw [gselect_relabel φ hφ]
+  generalize gselect ((S.sample s.state s.gen).map fun i => (i, fit (S.point i))) S.mu = sel
+  have e2 : (sel.map fun (p : ι × α) => (p.1, φ p.2)).map (·.1) = sel.map (·.1) := by
+    simp [List.map_map, Function.comp_def]
+  rw [e2]
+  cases sel with
+  | nil => exact ⟨rfl, rfl, h3, h4⟩
+  | cons b bs => exact ⟨rfl, rfl, rfl, rfl⟩
+
+/-- **generic_rank_invariance.**  Any strategy of the shape "sample from the state, evaluate, select the `mu` best by a
+stable sort on fitness, update the state from the selected offspring" — whatever its sampling and update functions are —
+visits the same points on `φ ∘ f` as on `f` for every order-preserving `φ`, for all numbers of generations. -/
+theorem generic_rank_invariance (S : Strategy σ ι α) (fit : Vec α → α) (φ : α → α) (hφ : OrderPreserving φ)
+    (s s' : GState σ α) (h : GRelated φ s s') (t : Nat) :
+    GRelated φ (grun S fit s t) (grun S (φ ∘ fit) s' t) := by
+  induction t with
+  | zero => exact h
+  | succ t ih => exact gstep_related S fit φ hφ _ _ ih
+
+/-- **generic_value_is_f.**  … and always reports the fitness of the reported point. -/
+theorem generic_value_is_f (S : Strategy σ ι α) (fit : Vec α → α) (s : GState σ α)
+    (h : s.bestValue = fit s.bestPoint) (t : Nat) :
+    (grun S fit s t).bestValue = fit (grun S fit s t).bestPoint := by
+  induction t with
+  | zero => exact h
+  | succ t ih =>
+    show (gstep S fit (grun S fit s t)).bestValue = fit (gstep S fit (grun S fit s t)).bestPoint
+    generalize grun S fit s t = u at ih
+    unfold gstep
+    simp only
+    split
+    · exact ih
+    · next b bs hsel =>
+      have hmem : b ∈ gselect ((S.sample u.state u.gen).map fun i => (i, fit (S.point i))) S.mu := by rw [hsel]; simp
+      unfold gselect at hmem
+      have := List.mem_of_mem_take hmem
+      rw [List.mem_mergeSort] at this
+      obtain ⟨i, _, rfl⟩ := List.mem_map.mp this
+      rfl
+end generic
+
+/-- the cross-entropy method is such a strategy: its update is `cemUpdate` on the selected points -/
+def cemStrategy (sample : Vec Rat × Vec Rat → Nat → List (Vec Rat)) (n mu : Nat) : Strategy (Vec Rat × Vec Rat) (Vec Rat) Rat :=
+  { sample := sample, point := id, mu := mu, update := fun _ sel => cemUpdate 0 n sel }
+
+def double : Rat → Rat := fun x => 2 * x
+theorem double_orderPreserving : OrderPreserving double :=
+  orderPreserving_of_strictMono double (fun a b h => by unfold double; linarith)
+
+/-- non-vacuity: the cross-entropy method on `2·f` visits the points it visits on `f` -/
+example (sample : Vec Rat × Vec Rat → Nat → List (Vec Rat)) (n mu : Nat) (fit : Vec Rat → Rat) (s : GState (Vec Rat × Vec Rat) Rat) (t : Nat) :
+    GRelated double (grun (cemStrategy sample n mu) fit s t)
+      (grun (cemStrategy sample n mu) (double ∘ fit) { s with bestValue := double s.bestValue } t) :=
+  generic_rank_invariance (cemStrategy sample n mu) fit double double_orderPreserving s { s with bestValue := double s.bestValue } ⟨rfl, rfl, rfl, rfl⟩ t
+
+/-! ### cross-entropy method -/
+theorem foldl_sq_nonneg (l : List (List Rat)) (g : List Rat → Rat) (a : Rat) (ha : 0 ≤ a) :
+    0 ≤ l.foldl (fun acc p => acc + g p * g p) a := by
+  induction l generalizing a with
+  | nil => exact ha
+  | cons x xs ih => exact ih _ (by nlinarith [mul_self_nonneg (g x)])
+
+/-- **cem_variance_nonneg**: every coordinate of the variance vector computed by
+`CrossEntropyMethod::updateStrategyParameters` is non-negative (noise term `max(noise,0) ≥ 0`), for every selection. -/
+theorem cem_variance_nonneg (noise : Rat) (hn : 0 ≤ noise) (n : Nat) (sel : List (List Rat)) :
+    ∀ v ∈ (cemUpdate noise n sel).2, 0 ≤ v := by
+  intro v hv
+  unfold cemUpdate at hv
+  simp only at hv
+  obtain ⟨j, _, rfl⟩ := List.mem_map.mp hv
+  have h1 := foldl_sq_nonneg sel (fun p => Vec.get p j - Vec.get ((List.range n).map fun i => sel.foldl (fun acc p => acc + Vec.get p i) Scalar.zero / ofNat sel.length) j) 0 (le_refl _)
+  have h2 : (0 : Rat) ≤ Scalar.one / ofNat sel.length := by
+    simp only [sone_rat, ofNat_rat]; positivity
+  have := mul_nonneg h1 h2
+  simp only [szero_rat] at *
+  linarith
+
+/-! ## elitist CMA -/
+
+theorem sigmaStep_pos (F : Fns Rat) (hexp : ∀ x, 0 < F.exp x) (k : EcmaConsts Rat) (sigma p : Rat) (hs : 0 < sigma) :
+    0 < sigmaStep F k sigma p := by
+  unfold sigmaStep; exact mul_pos hs (hexp _)
+
+theorem updateAsOffspring_sigma (F : Fns Rat) (k : EcmaConsts Rat) (s s' : Ecma Rat) (y : Vec Rat)
+    (h : updateAsOffspring F k s y = some s') :
+    s'.sigma = sigmaStep F k s.sigma ((1 - k.cP) * s.pSucc + k.cP) ∧ s'.pSucc = (1 - k.cP) * s.pSucc + k.cP ∧
+      s'.anc = s.anc ∧ s'.bestValue = s.bestValue ∧ s'.bestPoint = s.bestPoint := by
+  unfold updateAsOffspring at h
+  simp only [Option.map_eq_some_iff] at h
+  obtain ⟨pl, _, rfl⟩ := h
+  exact ⟨rfl, rfl, rfl, rfl, rfl⟩
+
+theorem updateAsParent_sigma (F : Fns Rat) (k : EcmaConsts Rat) (s s' : Ecma Rat) (succ : Success) (zz : Rat) (y : Vec Rat)
+    (hsucc : succ ≠ Success.successful) (h : updateAsParent F k s succ zz y = some s') :
+    s'.sigma = sigmaStep F k s.sigma ((1 - k.cP) * s.pSucc) ∧ s'.pSucc = (1 - k.cP) * s.pSucc ∧
+      s'.anc = s.anc ∧ s'.bestValue = s.bestValue ∧ s'.bestPoint = s.bestPoint := by
+  unfold updateAsParent at h
+  simp only [hsucc, if_false, sone_rat, szero_rat, mul_zero, add_zero] at h
+  split at h
+  · cases h; exact ⟨rfl, rfl, rfl, rfl, rfl⟩
+  · split at h
+    · simp only [Option.map_eq_some_iff] at h
+      obtain ⟨L', _, rfl⟩ := h
+      exact ⟨rfl, rfl, rfl, rfl, rfl⟩
+    · simp only [Option.map_eq_some_iff] at h
+      obtain ⟨pl, _, rfl⟩ := h
+      exact ⟨rfl, rfl, rfl, rfl, rfl⟩
+
+/-- **ecma_sigma_pos**: whenever `ElitistCMA::step` completes (no exception from the Cholesky update), a positive step
+size stays positive — for all three outcomes of the success rule. -/
+theorem ecma_sigma_pos (F : Fns Rat) (hexp : ∀ x, 0 < F.exp x) (k : EcmaConsts Rat) (s s' : Ecma Rat) (y : Vec Rat) (zz fp fu : Rat)
+    (hs : 0 < s.sigma) (h : ecmaStep F k s y zz fp fu = some s') : 0 < s'.sigma := by
+  unfold ecmaStep at h
+  simp only at h
+  split at h
+  · simp only [Option.map_eq_some_iff] at h
+    obtain ⟨u, hu, rfl⟩ := h
+    have := (updateAsOffspring_sigma F k s u y hu).1
+    show 0 < u.sigma
+    rw [this]; exact sigmaStep_pos F hexp k _ _ hs
+  · next succ hne =>
+    simp only [Option.map_eq_some_iff] at h
+    obtain ⟨u, hu, rfl⟩ := h
+    have := (updateAsParent_sigma F k s u _ zz y hne hu).1
+    show 0 < u.sigma
+    rw [this]; exact sigmaStep_pos F hexp k _ _ hs
+
+/-- the smoothed success probability stays in `[0,1]` (learning rate `0 < c_p < 1`, `ecma_consts_admissible`) -/
+theorem ecma_pSucc_unit (F : Fns Rat) (k : EcmaConsts Rat) (hc : 0 < k.cP ∧ k.cP < 1) (s s' : Ecma Rat) (y : Vec Rat) (zz fp fu : Rat)
+    (hp : 0 ≤ s.pSucc ∧ s.pSucc ≤ 1) (h : ecmaStep F k s y zz fp fu = some s') : 0 ≤ s'.pSucc ∧ s'.pSucc ≤ 1 := by
+  unfold ecmaStep at h
+  simp only at h
+  split at h
+  · simp only [Option.map_eq_some_iff] at h
+    obtain ⟨u, hu, rfl⟩ := h
+    have := (updateAsOffspring_sigma F k s u y hu).2.1
+    show 0 ≤ u.pSucc ∧ u.pSucc ≤ 1
+    rw [this]; constructor <;> nlinarith [hc.1, hc.2, hp.1, hp.2]
+  · next succ hne =>
+    simp only [Option.map_eq_some_iff] at h
+    obtain ⟨u, hu, rfl⟩ := h
+    have := (updateAsParent_sigma F k s u _ zz y hne hu).2.1
+    show 0 ≤ u.pSucc ∧ u.pSucc ≤ 1
+    rw [this]; constructor <;> nlinarith [hc.1, hc.2, hp.1, hp.2]
+
+/-- **ecma_elitist_monotone**: with the real three-way success rule and the history of accepted fitness values: if the
+last accepted fitness is the reported value (invariant, established by `init`) and the offspring is not penalized
+(`fu = fp`, i.e. feasible), the reported value never increases, the reported point changes only together with the value,
+and the invariant is preserved. -/
+theorem ecma_elitist_monotone (F : Fns Rat) (k : EcmaConsts Rat) (s s' : Ecma Rat) (y : Vec Rat) (zz fp : Rat)
+    (hinv : s.anc.getLast? = some s.bestValue) (h : ecmaStep F k s y zz fp fp = some s') :
+    s'.bestValue ≤ s.bestValue ∧ s'.anc.getLast? = some s'.bestValue ∧
+      (s'.bestValue = s.bestValue → s'.bestPoint = s.bestPoint) := by
+  unfold ecmaStep at h
+  simp only at h
+  split at h
+  · next hc =>
+    simp only [Option.map_eq_some_iff] at h
+    obtain ⟨u, hu, rfl⟩ := h
+    -- successful: fp < back = bestValue
+    have hlt : fp < s.bestValue := by
+      unfold classify at hc
+      rw [hinv] at hc
+      simp only at hc
+      by_contra hge
+      have hge' : s.bestValue ≤ fp := not_lt.mp hge
+      simp only [hge', if_true] at hc
+      split at hc
+      · split at hc <;> cases hc
+      · cases hc
+    refine ⟨hlt.le, by simp, ?_⟩
+    intro e; exact absurd e (ne_of_lt hlt)
+  · next succ hne =>
+    simp only [Option.map_eq_some_iff] at h
+    obtain ⟨u, hu, rfl⟩ := h
+    obtain ⟨_, _, ha, hv, hp⟩ := updateAsParent_sigma F k s u _ zz y hne hu
+    show u.bestValue ≤ s.bestValue ∧ u.anc.getLast? = some u.bestValue ∧ (u.bestValue = s.bestValue → u.bestPoint = s.bestPoint)
+    rw [ha, hv, hp]; exact ⟨le_refl _, hinv, fun _ => rfl⟩
+
+/-- the active ("negative") covariance update of `CMAChromosome::updateAsParent` is admissible for every step:
+with the rate chosen by the C++ (`rate = c_unlearn`, shortened to `1/(2‖z‖²−1)` when `‖z‖² > 1` and
+`1 < c_unlearn (2‖z‖²−1)`), the factor `(1+rate) − rate‖z‖²` of `I` along `z` in
+`L((1+rate) I − rate z zᵀ)Lᵀ` is positive, i.e. the updated matrix stays positive definite -/
+
+theorem active_update_admissible (cUnlearn zz : Rat) (hc : 0 < cUnlearn) (hz : 0 ≤ zz) :
+    0 < ES.activeRate cUnlearn zz ∧ 0 < (1 + ES.activeRate cUnlearn zz) - ES.activeRate cUnlearn zz * zz := by
+  unfold ES.activeRate
+  by_cases h0 : (Scalar.one : Rat) < zz ∧ (Scalar.one : Rat) < cUnlearn * (Scalar.two * zz - Scalar.one)
+  · rw [if_pos h0]
+    have h : 1 < zz ∧ 1 < cUnlearn * (2 * zz - 1) := h0
+    simp only [sone_rat, stwo_rat]
+    have hd : 0 < 2 * zz - 1 := by linarith [h.1]
+    refine ⟨by positivity, ?_⟩
+    have : 1 + 1 / (2 * zz - 1) - 1 / (2 * zz - 1) * zz = zz / (2 * zz - 1) := by field_simp; ring
+    rw [this]; exact div_pos (by linarith [h.1]) hd
+  · rw [if_neg h0]
+    have h : ¬ (1 < zz ∧ 1 < cUnlearn * (2 * zz - 1)) := h0
+    refine ⟨hc, ?_⟩
+    by_cases h1 : 1 < zz
+    · have : cUnlearn * (2 * zz - 1) ≤ 1 := by
+        by_contra hh; exact h ⟨h1, not_le.mp hh⟩
+      nlinarith
+    · have : zz ≤ 1 := not_lt.mp h1
+      nlinarith
+
+/-! ## CMSA -/
+theorem foldl_pos (l : List (CmsaInd Rat)) (c a : Rat) (hc : 0 < c) (ha : 0 ≤ a) (hl : ∀ i ∈ l, 0 < i.sigma) (hne : l ≠ [] ∨ 0 < a) :
+    0 < l.foldl (fun acc i => acc + c * i.sigma) a := by
+  induction l generalizing a with
+  | nil => rcases hne with h | h; exact absurd rfl h; exact h
+  | cons x xs ih =>
+    have hx : 0 < x.sigma := hl x (by simp)
+    exact ih _ (by nlinarith [mul_pos hc hx]) (fun i hi => hl i (by simp [hi])) (Or.inr (by nlinarith [mul_pos hc hx]))
+
+/-- **cmsa_sigma_pos**: the new step size (mean of the selected individuals' step sizes) is positive -/
+theorem cmsa_sigma_pos (F : Fns Rat) (cC : Rat) (n mu : Nat) (hmu : 1 ≤ mu) (s s' : Cmsa Rat) (sel : List (CmsaInd Rat))
+    (hne : sel ≠ []) (hpos : ∀ i ∈ sel, 0 < i.sigma) (h : cmsaUpdate F cC n mu s sel = some s') : 0 < s'.sigma := by
+  unfold cmsaUpdate at h
+  simp only [Option.map_eq_some_iff] at h
+  obtain ⟨L, _, rfl⟩ := h
+  have hm : (0 : Rat) < Scalar.one / ofNat mu := by
+    simp only [sone_rat, ofNat_rat]
+    have : (1 : Rat) ≤ (mu : Rat) := by exact_mod_cast hmu
+    positivity
+  exact foldl_pos sel _ _ hm (le_refl _) hpos (Or.inl hne)
+
+/-! ## simplex downhill -/
+theorem track_le (b x : Sol Rat) : (track b x).value ≤ b.value := by
+  unfold track; split
+  · next h => exact h.le
+  · exact le_refl _
+
+theorem foldl_track_le (l : List (Sol Rat)) (b : Sol Rat) : (l.foldl track b).value ≤ b.value := by
+  induction l generalizing b with
+  | nil => exact le_refl _
+  | cons x xs ih => exact le_trans (ih _) (track_le b x)
+
+/-- **simplex_best_monotone**: the reported value of `SimplexDownhill` never increases -/
+theorem simplex_best_monotone (f : Vec Rat → Rat) (s : Simplex Rat) : (simplexStep f s).best.value ≤ s.best.value := by
+  unfold simplexStep
+  simp only
+  split
+  · split
+    · exact track_le _ _
+    · split
+      · exact le_trans (track_le _ _) (track_le _ _)
+      · split
+        · exact le_trans (track_le _ _) (track_le _ _)
+        · exact le_trans (foldl_track_le _ _) (le_trans (track_le _ _) (track_le _ _))
+  · exact le_refl _
+
+theorem simplex_best_monotone_run (f : Vec Rat → Rat) (x0 : Vec Rat) (t u : Nat) (h : t ≤ u) :
+    (simplexRun f x0 u).best.value ≤ (simplexRun f x0 t).best.value := by
+  induction u with
+  | zero => have : t = 0 := by omega
+            subst this; exact le_refl _
+  | succ u ih =>
+    by_cases e : t = u + 1
+    · subst e; exact le_refl _
+    · exact le_trans (simplex_best_monotone f _) (ih (by omega))
+
+/-- a solution is "honest" when its value is the objective at its point -/
+def Honest (f : Vec Rat → Rat) (x : Sol Rat) : Prop := x.value = f x.point
+
+theorem track_honest (f : Vec Rat → Rat) (b x : Sol Rat) (hb : Honest f b) (hx : Honest f x) : Honest f (track b x) := by
+  unfold track; split <;> assumption
+
+theorem foldl_track_honest (f : Vec Rat → Rat) (l : List (Sol Rat)) (b : Sol Rat) (hb : Honest f b) (hl : ∀ x ∈ l, Honest f x) :
+    Honest f (l.foldl track b) := by
+  induction l generalizing b with
+  | nil => exact hb
+  | cons x xs ih => exact ih _ (track_honest f b x hb (hl x (by simp))) (fun y hy => hl y (by simp [hy]))
+
+/-- **simplex_value_is_f** (step): the reported value stays the objective at the reported point -/
+theorem simplex_value_is_f (f : Vec Rat → Rat) (s : Simplex Rat) (h : Honest f s.best) : Honest f (simplexStep f s).best := by
+  have he : ∀ p, Honest f (evalAt f p) := fun p => rfl
+  unfold simplexStep
+  simp only
+  split
+  · split
+    · exact track_honest f _ _ h (he _)
+    · split
+      · exact track_honest f _ _ (track_honest f _ _ h (he _)) (he _)
+      · split
+        · exact track_honest f _ _ (track_honest f _ _ h (he _)) (he _)
+        · apply foldl_track_honest f _ _ (track_honest f _ _ (track_honest f _ _ h (he _)) (he _))
+          intro x hx
+          obtain ⟨v, _, rfl⟩ := List.mem_map.mp hx
+          exact he _
   · exact h
 
 end SharkVerif.C11
